@@ -1,4 +1,5 @@
 //! Shared by all correspondence harnesses: one PRNG, hex transport, op-file IO.
+pub mod sched;
 use std::fmt::Write as _;
 use std::io::{BufRead, Write};
 
